@@ -39,7 +39,8 @@ def check(run: Run, prog: Program, model: Model, tier: str) -> None:
         "interpreter path of every visit method of the five visitor classes a member schema is never the operand "
         "of a class test against a schema class nor passed to a visit_* method directly; the fallback chain "
         "Schema.__accept__ -> visit -> __d42_*__ -> user hook forwards value/path/indent unchanged and uses the "
-        "hook names CustomSchema defines; the four entry functions pass their arguments through.")
+        "hook names CustomSchema defines; the four entry functions pass their arguments through."
+        " No function of the dispatch chain answers from instance or module-level state that the chain itself fills.")
     run.rule_text = ("one obligation per member-descent site (ONLY-ACCEPT), per link of the dispatch chain and per entry "
                      "function; non-trivial = established on interpreter paths through inlined helpers")
     unroll = 1
